@@ -7,6 +7,7 @@ use serde_json::{json, Value};
 use std::str::FromStr;
 
 const C18: &[&str] = &["C18"];
+const ROUTE: &[&str] = &["C18", "C14"];
 
 pub fn run(case: &Value, f: &mut Fails) {
 	let Some(s_owned) = text_of(&case["w"]) else { return };
@@ -27,7 +28,22 @@ pub fn run(case: &Value, f: &mut Fails) {
 		f.eq(C18, "borrowed_bytes.verdict", x, ok);
 	}
 	if let Some(x) = b3 {
-		f.eq(C18, "try_from.verdict", x, ok);
+		f.eq(ROUTE, "try_from.verdict", x, ok);
+	}
+	// serde routes accept exactly what the validating constructor accepts
+	{
+		use serde::de::value::{BorrowedStrDeserializer, Error as DeError, StringDeserializer};
+		use serde::Deserialize;
+		if let Some(x) = f.run(ROUTE, "serde.borrowed", || <&DataUrl>::deserialize(BorrowedStrDeserializer::<DeError>::new(s)).is_ok()) {
+			f.eq(ROUTE, "serde.borrowed.verdict", x, ok);
+		}
+		if let Some(x) = f.run(ROUTE, "serde.owned", || DataUrlBuf::deserialize(StringDeserializer::<DeError>::new(s.to_string())).is_ok()) {
+			f.eq(ROUTE, "serde.owned.verdict", x, ok);
+		}
+		let j = serde_json::to_string(s).unwrap();
+		if let Some(x) = f.run(ROUTE, "json.owned", || serde_json::from_str::<DataUrlBuf>(&j).is_ok()) {
+			f.eq(ROUTE, "json.owned.verdict", x, ok);
+		}
 	}
 	if let Some(x) = &o {
 		f.eq(C18, "owned.verdict", x.is_ok(), ok);
@@ -36,16 +52,16 @@ pub fn run(case: &Value, f: &mut Fails) {
 		}
 	}
 	if let Some(x) = &o2 {
-		f.eq(C18, "from_string.verdict", x.is_ok(), ok);
+		f.eq(ROUTE, "from_string.verdict", x.is_ok(), ok);
 		if let Err(e) = x {
 			f.eq(C18, "from_string.err_payload", e.0.as_str(), s);
 		}
 	}
 	if let Some(x) = o3 {
-		f.eq(C18, "from_str.verdict", x, ok);
+		f.eq(ROUTE, "from_str.verdict", x, ok);
 	}
 	if let Some(x) = o4 {
-		f.eq(C18, "try_from_string.verdict", x, ok);
+		f.eq(ROUTE, "try_from_string.verdict", x, ok);
 	}
 	if !ok {
 		return;
@@ -82,6 +98,9 @@ pub fn run(case: &Value, f: &mut Fails) {
 			}
 		}
 		f.eq(C18, "borrowed.as_uri", d.as_uri().as_str(), s);
+		if let Some(j) = f.run(ROUTE, "serialize", || serde_json::to_string(d).ok()) {
+			f.eq(ROUTE, "serialize", j, serde_json::to_string(s).ok());
+		}
 	}
 	// ---- owned form: stored offsets; must agree with the borrowed one
 	if let Some(Ok(d)) = o {
